@@ -346,6 +346,10 @@ func (f factory) SignalToAdd(address, action string) error {
 	if action == "start" {
 		cl.oracleElection(v, s)
 	}
+	// what remote.Factory.SignalToAdd does: the action is posted to the replica, whose registration loop acts on it
+	if m, ok := cl.nodes[n].(*ModelNode); ok {
+		m.Actions = append(m.Actions, action)
+	}
 	return nil
 }
 
